@@ -11,6 +11,8 @@ Clauses (one `Viol` constructor each):
   * `fifo`      an executed command is not the oldest unconsumed input of its user (a complete line in line mode,
                 a non-empty prefix in single-char mode) - order, loss and duplication
   * `idleWait`  backend asked the poller to block although a connected user already had a complete command buffered
+  * `starvedRaw` / `fifoRaw`  the same two failures when the input concerned was typed while a get_char() was
+                pending (known finding C12-getchar-typeahead: such bytes are buffered unframed, see notes/C12.md)
   * `efun`      a command() call on a live object was not executed at once (command() is not turn-limited:
                 `ecmd` events never count for `twice`)
   * `outside`, `crash`, `malformed`  robustness of the trace itself
@@ -25,7 +27,10 @@ inductive Viol where
   | twice (u n : Nat)
   | starved (u n : Nat)
   | fifo (u : Nat) (text : List Char)
+  | starvedRaw (u n : Nat)
+  | fifoRaw (u : Nat) (text : List Char)
   | idleWait (n u : Nat)
+  | idleWaitRaw (n u : Nat)
   | efun (target : Nat) (text : List Char)
   | outside (u : Nat)
   | crash (what : String)
@@ -35,8 +40,9 @@ inductive Viol where
 structure JU where
   connected : Bool := false      -- logged on and not removed by the driver side (kick / drop)
   clientOpen : Bool := true      -- the client has not closed its socket
-  pending : List Char := []      -- sent before the last `begin`, not yet consumed (`~` = end of line)
-  fresh : List Char := []        -- sent after the last `begin`
+  pending : List (Char × Bool) := []   -- sent before the last `begin`, not yet consumed (`~` = end of line);
+                                       -- the flag: sent while a get_char() of this user was pending
+  fresh : List (Char × Bool) := []     -- sent after the last `begin`
   charMode : Bool := false       -- a get_char() succeeded since this user's last command
   served : Bool := false         -- in the running cycle
   eligible : Bool := false       -- snapshot taken at `begin`
@@ -45,7 +51,7 @@ structure JU where
 structure JState where
   us : List (Nat × JU) := []
   cyc : Option Nat := none
-  mustNotBlock : Option Nat := none
+  mustNotBlock : Option (Nat × Bool) := none
   expect : Option (Nat × List Char) := none
   bad : List Viol := []                      -- newest first
 
@@ -60,8 +66,12 @@ def setU (s : JState) (u : Nat) (j : JU) : JState :=
 def JState.flag (s : JState) (v : Viol) : JState := { s with bad := v :: s.bad }
 
 /-- a complete command is waiting -/
-def complete (charMode : Bool) (p : List Char) : Bool :=
-  if charMode then !p.isEmpty else p.contains '~'
+def complete (charMode : Bool) (p : List (Char × Bool)) : Bool :=
+  if charMode then !p.isEmpty else (p.map (·.1)).contains '~'
+
+/-- the oldest pending line (or everything, when no line is complete) contains bytes typed during a get_char() -/
+def firstLineRaw (p : List (Char × Bool)) : Bool :=
+  ((p.takeWhile (fun e => e.1 != '~')).any (·.2)) || ((p.dropWhile (fun e => e.1 != '~')).take 1).any (·.2)
 
 def live (j : JU) : Bool := j.connected && j.clientOpen
 
@@ -71,12 +81,17 @@ def crlfToTilde : List Char → List Char
   | l => l
 
 /-- consume an executed command from the pending input; `none` = not the oldest input -/
-def consume (charMode : Bool) (p text : List Char) : Option (List Char) :=
+def consume (charMode : Bool) (p : List (Char × Bool)) (text : List Char) : Option (List (Char × Bool)) :=
   let line := text ++ ['~']
-  if line.isPrefixOf p then some (p.drop line.length)
+  if line.isPrefixOf (p.map (·.1)) then some (p.drop line.length)
   else
     let raw := crlfToTilde text
-    if charMode && !raw.isEmpty && raw.isPrefixOf p then some (p.drop raw.length) else none
+    if charMode && !raw.isEmpty && raw.isPrefixOf (p.map (·.1)) then some (p.drop raw.length) else none
+
+/-- after a `fifo` violation: drop what the command visibly was made of, so that one defect is reported once -/
+def resync (p : List (Char × Bool)) (text : List Char) : List (Char × Bool) :=
+  let raw := crlfToTilde text ++ ['~']
+  if raw.isPrefixOf (p.map (·.1)) then p.drop raw.length else p
 
 def judgeStep (s0 : JState) (e : Ev) : JState :=
   -- a requested command() must be the very next event
@@ -87,18 +102,19 @@ def judgeStep (s0 : JState) (e : Ev) : JState :=
   match e with
   | .conn _ => s
   | .logon u => setU s u { connected := true }
-  | .send u d => let j := getU s u; setU s u { j with fresh := j.fresh ++ d }
+  | .send u d => let j := getU s u; setU s u { j with fresh := j.fresh ++ d.map (fun c => (c, j.charMode)) }
   | .close u => let j := getU s u; setU s u { j with clientOpen := false }
   | .begin n =>
     let s := if s.cyc.isSome then s.flag (.malformed "nested begin") else s
-    let blocker := (s.us.find? (fun e => live e.2 && complete e.2.charMode e.2.pending)).map (·.1)
+    let blocker := (s.us.find? (fun e => live e.2 && complete e.2.charMode e.2.pending)).map
+      (fun e => (e.1, firstLineRaw e.2.pending))
     let us := s.us.map (fun (u, j) =>
       let p := j.pending ++ j.fresh
       (u, { j with pending := p, fresh := [], served := false, eligible := live j && complete j.charMode p }))
     { s with us := us, cyc := some n, mustNotBlock := blocker }
   | .poll n block =>
     match s.mustNotBlock, block with
-    | some u, true => s.flag (.idleWait n u)
+    | some (u, raw), true => s.flag (if raw then .idleWaitRaw n u else .idleWait n u)
     | _, _ => s
   | .cmd u text =>
     let s := if s.cyc.isNone then s.flag (.outside u) else s
@@ -106,7 +122,9 @@ def judgeStep (s0 : JState) (e : Ev) : JState :=
     let s := if j.served then s.flag (.twice u (s.cyc.getD 0)) else s
     match consume j.charMode j.pending text with
     | some p => setU s u { j with pending := p, served := true, charMode := false }
-    | none => setU (s.flag (.fifo u text)) u { j with served := true, charMode := false }
+    | none =>
+      setU (s.flag (if j.pending.any (·.2) then .fifoRaw u text else .fifo u text)) u
+        { j with pending := resync j.pending text, served := true, charMode := false }
   | .ecmd _ _ => s
   | .kick _ t ok => if ok then (let j := getU s t; setU s t { j with connected := false }) else s
   | .drop _ t ok => if ok then (let j := getU s t; setU s t { j with connected := false }) else s
@@ -116,7 +134,8 @@ def judgeStep (s0 : JState) (e : Ev) : JState :=
   | .endc n _ _ =>
     let s := if s.cyc != some n then s.flag (.malformed "end without begin") else s
     let starved := s.us.filter (fun e => e.2.eligible && live e.2 && !e.2.served)
-    let s := starved.foldl (fun s e => s.flag (.starved e.1 n)) s
+    let s := starved.foldl (fun s e =>
+      s.flag (if firstLineRaw e.2.pending then .starvedRaw e.1 n else .starved e.1 n)) s
     { s with cyc := none, mustNotBlock := none }
   | .crash w => s.flag (.crash w)
   | .other l => s.flag (.malformed l)
